@@ -10,7 +10,7 @@ META = {
     "level": "exploration",
     "engine": "crypto",
     "technique": "TLA+ spec CryptoBinding (symbolic binding terms; TLC checks accept <=> nothing changed) as cell enumerator and accept/reject oracle; every TLC behaviour applied to real GroupKey seal/open, seal/open_group_key, seal/open_psk_seed, TopicKey seal/open_message, seal/open_topic_key (TABLE pattern)",
-    "text": "For group keys, sealed group keys, sealed PSK seeds, topic-key messages and sealed topic keys TLC enumerates every sequence of <= 2 (thorough 3) tamper steps over the context components (label: different and extended; parent command; author key; group; sender and recipient/receiver keys; topic; version; the symmetric key itself), the ciphertext byte classes (first/middle/last byte of nonce, body, tag, encapsulation; truncated/extended tag or encapsulation) and plaintext lengths 0, 1, 16, 17, 48 (0..3 AEAD blocks), including restoring sequences (extend + truncate). Decides: open returns exactly the sealed plaintext/key iff nothing changed; every other cell is an Err, never a different plaintext.",
+    "text": "For group keys, sealed group keys, sealed PSK seeds, topic-key messages and sealed topic keys TLC enumerates every sequence of <= 2 (thorough 3) tamper steps over the context components (label: different and extended; parent command; author key; group; sender and recipient/receiver keys; topic; version; the symmetric key itself), the ciphertext byte classes (first/middle/last byte of nonce, body, tag, encapsulation; truncated/extended tag or encapsulation) and plaintext lengths 0, 1, 16, 17, 48 (0..3 AEAD blocks) and 4097, including restoring sequences (extend + truncate). Decides: open returns exactly the sealed plaintext/key iff nothing changed; every other cell is an Err, never a different plaintext.",
     "note": "Exploration level. DefaultCipherSuite only (AES-256-GCM, HKDF-SHA512, DHKEM-P256). EncryptedGroupKey/EncryptedPskSeed are edited through their postcard form (layout 64+16 asserted). Flips of an empty body (plen 0) are inapplicable and skipped (counted as drift).",
 }
 
@@ -25,7 +25,7 @@ def run(ctx):
         ctx.absorb(res)
         cu.finish_cov(ctx, [case], res)
         return
-    cells = cu.cells_for(ctx, "enc", plens=(0, 1, 16, 17, 48), thorough_depth=3)
+    cells = cu.cells_for(ctx, "enc", plens=(0, 1, 16, 17, 48, 4097), thorough_depth=3)
     for sch, comp in (("groupkey", "label"), ("groupkey", "parent"), ("groupkey", "author"), ("sealedgk", "group"),
                       ("pskseed", "sender"), ("pskseed", "recipient"), ("topicmsg", "topic"), ("sealedtopic", "receiver")):
         if not any(b["scheme"] == sch and any(o["op"] == "replace" and o["a"] == comp for o in b["ops"]) for b in cells):
@@ -36,7 +36,7 @@ def run(ctx):
     ctx.absorb(res)
     st = cu.selftest(ctx, vh, "enc", cells, opts)
     cu.finish_cov(ctx, cells, res, {
-        "plaintext_lengths": [0, 1, 16, 17, 48],
+        "plaintext_lengths": [0, 1, 16, 17, 48, 4097],
         "selftest": st,
         "samples": [next(b for b in cells if b["scheme"] == "groupkey" and len(b["ops"]) == 2),
                     next(b for b in cells if b["scheme"] == "pskseed" and b["ops"]),
